@@ -34,6 +34,11 @@ var solvers = []solverDef{
 	{"z3-new/noauto", func(f string, t, seed int) []string {
 		return []string{"z3-new", fmt.Sprintf("-T:%d", t), "smt.auto_config=false", fmt.Sprintf("smt.random_seed=%d", seed), f}
 	}},
+	{"z3-new/arith2", func(f string, t, seed int) []string {
+		// the previous simplex core: index equalities modulo linear arithmetic under uninterpreted functions (select/idx) are decided
+		// quickly where the default arithmetic solver is seed-sensitive (C34 ParseCustodianUpdateNodesExtra [content]), and vice versa
+		return []string{"z3-new", fmt.Sprintf("-T:%d", t), "smt.arith.solver=2", fmt.Sprintf("smt.random_seed=%d", seed), f}
+	}},
 	{"z3", func(f string, t, seed int) []string {
 		return []string{"z3", fmt.Sprintf("-T:%d", t), fmt.Sprintf("smt.random_seed=%d", seed), f}
 	}},
